@@ -285,6 +285,23 @@ def sender_layout_for(ctx, keys, rule, size_rule=None):
         sender_layout(ctx, f, summ, FW.LAYOUT[key], rule, size_rule or rule)
 
 
+def received_header_rules(ctx, rule="R4"):
+    """CRTPPacket.__init__(header, data) is how every driver turns received bytes into a packet: port = bits 7..4, channel = bits
+    1..0 and nothing else (bits 3..2 are the link's).  Shared with C07: the dispatcher compares exactly these two fields."""
+    m = ctx.model
+    pkc = m.cls(ST, 'CRTPPacket')
+    init = pkc.method('__init__')
+    sts = {norm(s.targets[0]): s.value for s in walk_own(init.node) if isinstance(s, ast.Assign)}
+    ctx.need('self._port' in sts and 'self._channel' in sts and 'self.header' in sts, 'CRTPPacket.__init__: port/channel/header stores not found')
+    pb = B_.evaluate(sts['self._port'], Scope.of(init), {'header': 'header'})
+    cb = B_.evaluate(sts['self._channel'], Scope.of(init), {'header': 'header'})
+    ctx.inst(rule, init, 'reader-port', B_.is_input_field(pb, 0, 4, 'header', 4) and all(b == 0 for b in pb[4:]), 'port extracted as %s' % B_.describe(pb, 8))
+    ctx.inst(rule, init, 'reader-channel', B_.is_input_field(cb, 0, 2, 'header', 0) and all(b == 0 for b in cb[2:]), 'channel extracted as %s' % B_.describe(cb, 8))
+    hh = B_.evaluate(sts['self.header'], Scope.of(init), {'header': 'header'})
+    ctx.inst(rule, init, 'reader-header', hh[2] == 1 and hh[3] == 1 and B_.is_input_field(hh, 4, 4, 'header', 4) and B_.is_input_field(hh, 0, 2, 'header', 0),
+             'stored header %s' % B_.describe(hh, 8))
+
+
 def check(ctx):
     m = ctx.model
     oracle = FW.LAYOUT
@@ -432,15 +449,7 @@ def check(ctx):
     ctx.inst('R4', uh, 'link-bits-3..2', hb[2] == 1 and hb[3] == 1, 'bits 3..2 must be set (legacy bootloader); header bits: %s' % B_.describe(hb, 8))
     ctx.inst('R4', uh, 'one-byte', all(b == 0 for b in hb[8:]), 'header must fit one byte')
     init = pkc.method('__init__')
-    sts = {norm(s.targets[0]): s.value for s in walk_own(init.node) if isinstance(s, ast.Assign)}
-    ctx.need('self._port' in sts and 'self._channel' in sts and 'self.header' in sts, 'CRTPPacket.__init__: port/channel/header stores not found')
-    pb = B_.evaluate(sts['self._port'], Scope.of(init), {'header': 'header'})
-    cb = B_.evaluate(sts['self._channel'], Scope.of(init), {'header': 'header'})
-    ctx.inst('R4', init, 'reader-port', B_.is_input_field(pb, 0, 4, 'header', 4) and all(b == 0 for b in pb[4:]), 'port extracted as %s' % B_.describe(pb, 8))
-    ctx.inst('R4', init, 'reader-channel', B_.is_input_field(cb, 0, 2, 'header', 0) and all(b == 0 for b in cb[2:]), 'channel extracted as %s' % B_.describe(cb, 8))
-    hh = B_.evaluate(sts['self.header'], Scope.of(init), {'header': 'header'})
-    ctx.inst('R4', init, 'reader-header', hh[2] == 1 and hh[3] == 1 and B_.is_input_field(hh, 4, 4, 'header', 4) and B_.is_input_field(hh, 0, 2, 'header', 0),
-             'stored header %s' % B_.describe(hh, 8))
+    received_header_rules(ctx, 'R4')
     for setter, attr in (('_set_port', 'self._port'), ('_set_channel', 'self._channel')):
         f = pkc.method(setter)
         gst = cfg_of(f)
